@@ -40,6 +40,9 @@ CONSTANTS K,                 \* number of nodes
           RecLimit, TotalLimit, PerFuncLimit, PerFuncRec, InferLimit,
           ResetCounts,       \* see above
           GuardsOn,          \* FALSE = what-if: the execution budgets are ignored
+          TaintedReused,     \* TRUE = the code: the value of a module-level statement computed while a guard cut a
+                             \* cycle (a partial value) stays in memoize_cache and answers later queries;
+                             \* FALSE = the repaired design (partial values are not kept)
           PopDefaultOnRaise, \* TRUE = _memoize_default removes its default when the computation raises (the
                              \* repaired code); FALSE = the default stays behind (the code before the repair)
           MaxQueries,        \* queries on the Script under test
@@ -175,9 +178,11 @@ Leave ==
   /\ LET n == Top.n IN
      /\ retv' = Val(Top.acc) /\ rt' = Top.taint /\ stack' = Pop
      /\ IF Kind(n) = "stmt"
-        THEN \* TaintedNotReused: a value computed while a guard cut a cycle is not kept for later queries
-             \* (in the code re-entry happens in fresh execution contexts, i.e. under other memo keys)
-             /\ memo' = [memo EXCEPT ![n] = IF Top.taint THEN Absent ELSE Val(Top.acc)]
+        THEN \* Deviation of the code, modelled as it is (TaintedReused): _memoize_default stores whatever the
+             \* computation returned, also when a recursion guard cut a cycle underneath it.  Function bodies
+             \* are re-entered in fresh execution contexts (other memo keys), module-level statements are not:
+             \* their partial value answers later queries on the same Script (KNOWN FINDING C16 partial-memo).
+             /\ memo' = [memo EXCEPT ![n] = IF Top.taint /\ ~TaintedReused THEN Absent ELSE Val(Top.acc)]
              /\ pushed' = SubSeq(pushed, 1, Len(pushed) - 1)
              /\ UNCHANGED <<level, parents>>
         ELSE /\ level' = level - 1 /\ parents' = SubSeq(parents, 1, Len(parents) - 1)
